@@ -101,9 +101,22 @@ Definition head_ok (F : list Z) : Prop :=
   | t :: F' => (forall x, nth_error F' 1 = Some x -> t - x > rt) /\ (forall x, nth_error F' (Z.to_nat ra + 1) = Some x -> t - x > dt)
   | [] => True end.
 (* ... and so did every failing contact when it was made *)
-Fixpoint log_ok (log : list hev) : Prop := match log with [] => True | e :: r => head_ok (cur_run (e :: r)) /\ log_ok r end.
+(* an eviction of sv, when retries are configured, happens only after at least two failing contacts in a row *)
+Definition ev_fine (e : hev) (r : list hev) : Prop :=
+  match e with HEvict s' _ => list_eqb s' sv = true -> 0 < ra -> (2 <= length (cur_run r))%nat | _ => True end.
+Fixpoint log_ok (log : list hev) : Prop :=
+  match log with [] => True | e :: r => head_ok (cur_run (e :: r)) /\ ev_fine e r /\ log_ok r end.
 Lemma log_ok_head log : log_ok log -> head_ok (cur_run log).
 Proof. destruct log; [intros _; exact I|intros [H _]; exact H]. Qed.
+(* sv never had a failing contact *)
+Fixpoint clean (log : list hev) : Prop :=
+  match log with
+  | [] => True
+  | HContact s' _ _ ok _ :: r => (list_eqb s' sv = true -> ok = true) /\ clean r
+  | _ :: r => clean r
+  end.
+Lemma clean_tail e r : clean (e :: r) -> clean r.
+Proof. destruct e; cbn [clean]; [intros [_ H]; exact H|auto|auto]. Qed.
 
 (* ---- what every step keeps: distinct keys, a non-decreasing clock, outcomes that are success or OSError ---- *)
 Fixpoint mono (T : Z) (l : list Z) : Prop := match l with [] => True | t :: r => T <= t /\ mono t r end.
@@ -116,18 +129,18 @@ Record G (s : hstate) : Prop := {
 Definition view_eq (s s' : hstate) : Prop :=
   sv_get (h_failed s') sv = sv_get (h_failed s) sv /\ sv_get (h_dead s') sv = sv_get (h_dead s) sv /\
   sv_mem (h_nodes s') sv = sv_mem (h_nodes s) sv /\ cur_run (h_log s') = cur_run (h_log s) /\
-  h_last_time s <= h_last_time s' /\ (log_ok (h_log s) -> log_ok (h_log s')).
+  h_last_time s <= h_last_time s' /\ (log_ok (h_log s) -> log_ok (h_log s')) /\ (clean (h_log s') -> clean (h_log s)).
 Definition FRs (s s' : hstate) : Prop := G s -> G s' /\ view_eq s s'.
 Definition FR {A} (m : HM A) : Prop := forall s, FRs s (snd (m s)).
 
-Ltac vsplit := unfold view_eq; split; [|split; [|split; [|split; [|split]]]].
+Ltac vsplit := unfold view_eq; split; [|split; [|split; [|split; [|split; [|split]]]]].
 Lemma view_eq_refl s : view_eq s s.
 Proof. vsplit; auto; lia. Qed.
 Lemma FRs_refl s : FRs s s.
 Proof. intros H. split; [exact H|apply view_eq_refl]. Qed.
 Lemma FRs_trans s1 s2 s3 : FRs s1 s2 -> FRs s2 s3 -> FRs s1 s3.
 Proof.
-  intros H12 H23 G1. destruct (H12 G1) as [G2 (A1 & A2 & A3 & A4 & A5 & A6)]. destruct (H23 G2) as [G3 (B1 & B2 & B3 & B4 & B5 & B6)].
+  intros H12 H23 G1. destruct (H12 G1) as [G2 (A1 & A2 & A3 & A4 & A5 & A6 & A7)]. destruct (H23 G2) as [G3 (B1 & B2 & B3 & B4 & B5 & B6 & B7)].
   split; [exact G3|]. unfold view_eq. rewrite B1, B2, B3, B4, A1, A2, A3, A4. vsplit; auto; lia.
 Qed.
 Lemma FR_ret {A} (a : A) : FR (hret a). Proof. intros s. apply FRs_refl. Qed.
@@ -159,21 +172,31 @@ Proof.
 Qed.
 Lemma cur_run_other e r : match e with HContact s' _ _ _ _ => list_eqb s' sv = false | _ => True end -> cur_run (e :: r) = cur_run r.
 Proof. destruct e; cbn [cur_run]; intros H; try rewrite H; reflexivity. Qed.
-Lemma log_ok_other e r : match e with HContact s' _ _ _ _ => list_eqb s' sv = false | _ => True end -> log_ok r -> log_ok (e :: r).
-Proof. intros H L. cbn [log_ok]. rewrite (cur_run_other e r H). split; [apply log_ok_head, L|exact L]. Qed.
-Lemma FR_hlog e : match e with HContact s' _ _ _ _ => list_eqb s' sv = false | _ => True end -> FR (hlog e).
+Definition other (e : hev) : Prop := match e with HContact s' _ _ _ _ | HEvict s' _ => list_eqb s' sv = false | HRevive _ _ => True end.
+Lemma other_weak e : other e -> match e with HContact s' _ _ _ _ => list_eqb s' sv = false | _ => True end.
+Proof. destruct e; cbn; auto. Qed.
+Lemma log_ok_other e r : other e -> log_ok r -> log_ok (e :: r).
+Proof.
+  intros H L. cbn [log_ok]. rewrite (cur_run_other e r (other_weak e H)). split; [apply log_ok_head, L|]. split; [|exact L].
+  destruct e; cbn [ev_fine]; try exact I. cbn in H. intros X. congruence.
+Qed.
+Lemma clean_other e r : other e -> clean r -> clean (e :: r).
+Proof. destruct e; cbn [other clean]; intros H Cr; auto. split; [intros X; congruence|exact Cr]. Qed.
+Lemma log_ok_contact m a ok t r : head_ok (cur_run (HContact sv m a ok t :: r)) -> log_ok r -> log_ok (HContact sv m a ok t :: r).
+Proof. intros H L. cbn [log_ok ev_fine]. auto. Qed.
+Lemma FR_hlog e : other e -> FR (hlog e).
 Proof.
   intros He s Gs. unfold hlog. cbn [snd]. destruct Gs as [G1 G2 G3 G4 G5]. split; [constructor; cbn; assumption|].
-  unfold view_eq. cbn [h_failed h_dead h_nodes h_log h_last_time]. rewrite (cur_run_other e _ He). vsplit; auto; [lia|intros L; apply log_ok_other; assumption].
+  unfold view_eq. cbn [h_failed h_dead h_nodes h_log h_last_time]. rewrite (cur_run_other e _ (other_weak e He)). vsplit; auto; [lia|intros L; apply log_ok_other; assumption|apply clean_tail].
 Qed.
 Lemma FR_icall sv' m a : list_eqb sv' sv = false -> FR (icall sv' m a).
 Proof.
   intros N s Gs. unfold icall. destruct Gs as [G1 G2 G3 G4 G5].
   destruct (h_out s) as [|o r] eqn:E; cbn [snd].
   - split; [constructor; cbn; try assumption; constructor|]. unfold view_eq. cbn [h_failed h_dead h_nodes h_log h_last_time].
-    rewrite (cur_run_other (HContact sv' m a true (h_last_time s)) _ N). vsplit; auto; [lia|intros L; apply log_ok_other; assumption].
+    rewrite (cur_run_other (HContact sv' m a true (h_last_time s)) _ N). vsplit; auto; [lia|intros L; apply log_ok_other; assumption|apply clean_tail].
   - split; [constructor; cbn; try assumption; apply (Forall_inv_tail G5)|]. unfold view_eq. cbn [h_failed h_dead h_nodes h_log h_last_time].
-    rewrite (cur_run_other (HContact sv' m a _ (h_last_time s)) _ N). vsplit; auto; [lia|intros L; apply log_ok_other; assumption].
+    rewrite (cur_run_other (HContact sv' m a _ (h_last_time s)) _ N). vsplit; auto; [lia|intros L; apply log_ok_other; assumption|apply clean_tail].
 Qed.
 (* an update of the tables that leaves sv's entries alone *)
 Lemma FR_upd {A} (a : A) (fn fc : hstate -> list server) ff fd fl :
@@ -221,7 +244,7 @@ Proof.
   { apply (FR_upd tt (fun s => sv_remove (h_nodes s) sv') (fun s => h_clients s) (fun s => h_failed s) (fun s => h_dead s) (fun s => h_last_check s)).
     intros s0 [G1 G2 G3 G4 G5]. split; [apply sv_remove_nodup, G1|]. split; [exact G2|]. split; [exact G3|].
     split; [apply sv_mem_remove_other, N|]. split; reflexivity. }
-  eapply FRs_trans; [exact F2|]. apply (FR_hlog (HEvict sv' t) I).
+  eapply FRs_trans; [exact F2|]. apply (FR_hlog (HEvict sv' t) N).
 Qed.
 Ltac to_FR := match goal with |- FRs ?s0 (snd (?m ?s0)) => apply (fun H : FR m => H s0) end.
 Lemma FR_mark sv' : list_eqb sv' sv = false -> FR (mark_failed c sv').
@@ -255,12 +278,17 @@ Definition Lv (rec : option (Z * Z)) (dead : option Z) (mem : bool) (F : list Z)
   | None, None => sepO [] F T
   | None, Some td => le_hd F td /\ td <= T /\ mem = false
   | Some (att, ft), None =>
-      exists C O, F = C ++ O /\ sepO C O T /\ 0 <= att <= ra /\ 0 < ra /\ Z.of_nat (length C) <= att + 1 /\ le_hd F ft /\ ft <= T /\ (1 <= att -> gap2 C)
-  | Some (att, ft), Some td => att = 0 /\ 0 < ra /\ le_hd F td /\ td <= ft /\ ft <= T /\ mem = false
+      (exists C O, F = C ++ O /\ sepO C O T /\ 0 <= att <= ra /\ 0 < ra /\ Z.of_nat (length C) <= att + 1 /\ le_hd F ft /\ ft <= T /\ (1 <= att -> gap2 C))
+      /\ att + 1 <= Z.of_nat (length F)
+  | Some (att, ft), Some td => att = 0 /\ 0 < ra /\ le_hd F td /\ td <= ft /\ ft <= T /\ mem = false /\ 1 <= Z.of_nat (length F)
   end.
 Definition L (s : hstate) : Prop :=
   Lv (sv_get (h_failed s) sv) (sv_get (h_dead s) sv) (sv_mem (h_nodes s) sv) (cur_run (h_log s)) (h_last_time s).
-Definition Inv (s : hstate) : Prop := G s /\ log_ok (h_log s) /\ L s.
+(* while sv has never failed it has no failure record, is not evicted, and stays in rotation if it started there *)
+Variable m0 : bool.
+Definition Cl (s : hstate) : Prop :=
+  clean (h_log s) -> sv_get (h_failed s) sv = None /\ sv_get (h_dead s) sv = None /\ (m0 = true -> sv_mem (h_nodes s) sv = true).
+Definition Inv (s : hstate) : Prop := G s /\ log_ok (h_log s) /\ L s /\ Cl s.
 
 Lemma le_hd_mono F a b : le_hd F a -> a <= b -> le_hd F b.
 Proof. destruct F; cbn; intros; [exact I|lia]. Qed.
@@ -275,15 +303,16 @@ Lemma Lv_mono r d m F T T' : Lv r d m F T -> T <= T' -> Lv r d m F T'.
 Proof.
   intros (H1 & H2 & H3) Ht. split; [exact H1|]. split; [apply (le_hd_mono F T), Ht; exact H2|].
   destruct r as [[att ft]|]; destruct d as [td|].
-  - destruct H3 as (A & B & C0 & D & E & F0). repeat split; auto; lia.
-  - destruct H3 as (C0 & O & A & B & D & E & F0 & G0 & H0 & I0). exists C0, O. repeat split; auto; try lia. apply (sepO_mono C0 O T), Ht. exact B.
+  - destruct H3 as (A & B & C0 & D & E & F0 & G0). repeat split; auto; lia.
+  - destruct H3 as ((C0 & O & A & B & D & E & F0 & G0 & H0 & I0) & Hlen). split; [|exact Hlen]. exists C0, O. repeat split; auto; try lia. apply (sepO_mono C0 O T), Ht. exact B.
   - destruct H3 as (A & B & C0). repeat split; auto; lia.
   - apply (sepO_mono [] F T), Ht. exact H3.
 Qed.
 Lemma Inv_frame s s' : Inv s -> FRs s s' -> Inv s'.
 Proof.
-  intros (Gs & Ls & Hs) F. destruct (F Gs) as [G' (A1 & A2 & A3 & A4 & A5 & A6)].
-  split; [exact G'|]. split; [apply A6, Ls|]. unfold L. rewrite A1, A2, A3, A4. apply (Lv_mono _ _ _ _ (h_last_time s)); assumption.
+  intros (Gs & Ls & Hs & Cs) F. destruct (F Gs) as [G' (A1 & A2 & A3 & A4 & A5 & A6 & A7)].
+  split; [exact G'|]. split; [apply A6, Ls|]. split; [unfold L; rewrite A1, A2, A3, A4; apply (Lv_mono _ _ _ _ (h_last_time s)); assumption|].
+  unfold Cl. rewrite A1, A2, A3. intros X. apply Cs, A7, X.
 Qed.
 Lemma FR_inv {A} (m : HM A) s : FR m -> Inv s -> Inv (snd (m s)).
 Proof. intros H Hi. apply (Inv_frame s); [exact Hi|apply H]. Qed.
@@ -332,17 +361,18 @@ Lemma snd_then {A} (m : HM unit) (b : bool) (d : A) e s : snd ((m ;;;; if b then
 Proof. unfold hbind. destruct (m s) as [[u|x] s']; [destruct b; reflexivity|reflexivity]. Qed.
 
 Lemma remove_sv s r : G s -> sv_get (h_failed s) sv = Some r -> sv_mem (h_nodes s) sv = true ->
+  (0 < ra -> (2 <= length (cur_run (h_log s)))%nat) ->
   exists td s', remove_server sv s = (Ok tt, s') /\ h_last_time s <= td /\ G s' /\ sv_get (h_failed s') sv = None /\
     sv_get (h_dead s') sv = Some td /\ sv_mem (h_nodes s') sv = false /\ cur_run (h_log s') = cur_run (h_log s) /\
-    (log_ok (h_log s) -> log_ok (h_log s')) /\ h_last_time s' = td.
+    (log_ok (h_log s) -> log_ok (h_log s')) /\ h_last_time s' = td /\ (clean (h_log s') -> clean (h_log s)).
 Proof.
-  intros Gs Hr Hm. unfold remove_server, hbind.
+  intros Gs Hr Hm Hev. unfold remove_server, hbind.
   destruct (now_sp s Gs) as (t & s1 & En & G1 & N1 & N2 & N3 & N4 & N5 & N6). rewrite En. rewrite N2, Hr. cbn zeta. cbn [upd h_nodes]. rewrite N1, Hm.
   unfold hlog. exists t. eexists. split; [reflexivity|]. split; [exact N6|]. cbn [h_failed h_dead h_nodes h_log h_last_time upd].
   destruct G1 as [A1 A2 A3 A4 A5]. rewrite N1, N2, N3 in *.
   split; [constructor; cbn; try assumption; [apply sv_remove_nodup, A1|apply sv_del_nodup, A2|apply sv_set_nodup, A3]|].
   split; [apply sv_get_del_same, A2|]. split; [apply sv_get_set_same|]. split; [apply sv_mem_remove_same, A1|].
-  rewrite N4. split; [reflexivity|]. split; [intros Lg; apply (log_ok_other (HEvict sv t)); [exact I|exact Lg]|exact N5].
+  rewrite N4. split; [reflexivity|]. split; [|split; [exact N5|apply clean_tail]]. intros Lg. cbn [log_ok cur_run ev_fine]. split; [apply log_ok_head, Lg|]. split; [intros _; exact Hev|exact Lg].
 Qed.
 Lemma mark_some s att ft : G s -> sv_get (h_failed s) sv = Some (att, ft) ->
   exists t, h_last_time s <= t /\ let s' := snd (mark_failed c sv s) in
@@ -368,7 +398,8 @@ Qed.
 Lemma mark_none_zero s : G s -> sv_get (h_failed s) sv = None -> ra <= 0 -> sv_mem (h_nodes s) sv = true ->
   exists td, h_last_time s <= td /\ let s' := snd (mark_failed c sv s) in
     G s' /\ sv_get (h_failed s') sv = None /\ sv_get (h_dead s') sv = Some td /\ sv_mem (h_nodes s') sv = false /\
-    cur_run (h_log s') = cur_run (h_log s) /\ (log_ok (h_log s) -> log_ok (h_log s')) /\ h_last_time s' = td.
+    cur_run (h_log s') = cur_run (h_log s) /\ (log_ok (h_log s) -> log_ok (h_log s')) /\ h_last_time s' = td /\
+    (clean (h_log s') -> clean (h_log s)).
 Proof.
   intros Gs Hr Hp Hm. unfold mark_failed. rewrite Hr. unfold hbind.
   destruct (now_sp s Gs) as (t & s1 & En & G1 & N1 & N2 & N3 & N4 & N5 & N6). rewrite En.
@@ -377,11 +408,11 @@ Proof.
   assert (G2 : G s2) by (destruct G1 as [A1 A2 A3 A4 A5]; apply G_upd; [constructor; assumption|exact A1|apply sv_set_nodup, A2|exact A3]).
   assert (R2 : sv_get (h_failed s2) sv = Some (0, t)) by apply sv_get_set_same.
   assert (M2 : sv_mem (h_nodes s2) sv = true) by (cbn; rewrite N1; exact Hm).
-  destruct (remove_sv s2 (0, t) G2 R2 M2) as (td & s3 & E3 & T3 & G3 & R3 & D3 & M3 & C3 & L3 & T3').
+  destruct (remove_sv s2 (0, t) G2 R2 M2 ltac:(intros; lia)) as (td & s3 & E3 & T3 & G3 & R3 & D3 & M3 & C3 & L3 & T3' & K3).
   cbn [snd]. change ((fun s0 : hstate => (Ok tt, upd s0 (h_nodes s0) (h_clients s0) (sv_set (h_failed s0) sv (0, t)) (h_dead s0) (h_last_check s0))) s1) with (Ok tt, s2).
   cbn iota beta. rewrite E3. cbn [snd]. exists td. split; [cbn in T3; lia|]. cbn zeta.
   split; [exact G3|]. split; [exact R3|]. split; [exact D3|]. split; [exact M3|].
-  cbn [s2 upd h_log] in C3, L3. rewrite N4 in C3, L3. auto.
+  cbn [s2 upd h_log] in C3, L3, K3. rewrite N4 in C3, L3, K3. auto.
 Qed.
 
 Lemma snd_then' {A} (m : HM unit) (b : bool) (d : A) e s :
@@ -393,16 +424,22 @@ Proof. intros H. cbn [dispatch_handlers]. rewrite H. reflexivity. Qed.
 Lemma in_nth {A} (l : list A) n x : nth_error l n = Some x -> In x l.
 Proof. apply nth_error_In. Qed.
 
+Lemma Cl_vac sf s : (clean (h_log sf) -> clean (h_log s)) -> Cl s -> sv_get (h_failed s) sv <> None -> Cl sf.
+Proof. intros H Cs Hne X. destruct (Cs (H X)) as [A _]. contradiction. Qed.
+Lemma not_clean m a t r : ~ clean (HContact sv m a false t :: r).
+Proof. cbn [clean]. intros [H _]. specialize (H (list_eqb_refl sv)). discriminate. Qed.
+
 (* ---- a call routed to sv ---- *)
 Lemma safely_sv m a d s : Inv s -> sv_mem (h_nodes s) sv = true -> Inv (snd (safely_run c sv (icall sv m a) d s)).
 Proof.
-  intros (Gs & Lg & Ls) Hm. unfold L, Lv in Ls. rewrite Hm in Ls. destruct Ls as (Hd & Hl & Ls).
+  intros (Gs & Lg & Ls & Cs) Hm. unfold L, Lv in Ls. rewrite Hm in Ls. destruct Ls as (Hd & Hl & Ls).
   set (F := cur_run (h_log s)) in *. set (T := h_last_time s) in *.
   unfold safely_run, htry. unfold hbind at 1.
   destruct (sv_get (h_failed s) sv) as [[att ft]|] eqn:Er; destruct (sv_get (h_dead s) sv) as [td|] eqn:Ed;
-    try (destruct Ls as (_ & _ & _ & _ & _ & X); discriminate X); try (destruct Ls as (_ & _ & X); discriminate X).
+    try (destruct Ls as (_ & _ & _ & _ & _ & X & _); discriminate X); try (destruct Ls as (_ & _ & X); discriminate X).
   - (* a failure record, in rotation *)
-    destruct Ls as (C & O & EF & Hs & Hatt & Hra & Hlen & Hft & HftT & Hgap).
+    destruct Ls as ((C & O & EF & Hs & Hatt & Hra & Hlen & Hft & HftT & Hgap) & Hlong).
+    assert (Hrec : sv_get (h_failed s) sv <> None) by (rewrite Er; discriminate).
     destruct (Z.ltb_spec att ra) as [Hlt|Hge].
     + (* retries left *)
       unfold hbind at 1. destruct (now_sp s Gs) as (t & s1 & En & G1 & N1 & N2 & N3 & N4 & N5 & N6). rewrite En.
@@ -415,9 +452,11 @@ Proof.
            destruct G2 as [A1 A2 A3 A4 A5].
            split; [constructor; cbn; try assumption; apply sv_del_nodup, A2|].
            cbn [upd h_log h_failed h_dead h_nodes h_last_time]. rewrite I5. cbn [isok].
-           split; [cbn [log_ok]; rewrite cur_run_sv; split; [exact I|rewrite N4; exact Lg]|].
-           unfold L, Lv. cbn [upd h_log h_failed h_dead h_nodes h_last_time]. rewrite I5, cur_run_sv, I2, I3, N2, N3, Ed.
-           rewrite (sv_get_del_same (h_failed s) sv (g_failed s Gs)). split; [exact I|]. split; [exact I|]. exact I.
+           split; [apply log_ok_contact; [rewrite cur_run_sv; exact I|rewrite N4; exact Lg]|].
+           split.
+           { unfold L, Lv. cbn [upd h_log h_failed h_dead h_nodes h_last_time]. rewrite I5, cur_run_sv, I2, I3, N2, N3, Ed.
+             rewrite (sv_get_del_same (h_failed s) sv (g_failed s Gs)). split; [exact I|]. split; [exact I|]. exact I. }
+           apply (Cl_vac _ s); [|exact Cs|exact Hrec]. cbn [upd h_log]. rewrite I5, N4. apply clean_tail.
         -- (* failure: one more attempt is counted *)
            cbn [snd]. cbn [okout] in Ho. rewrite dispatch_os by exact Ho. rewrite snd_then.
            assert (R2 : sv_get (h_failed s2) sv = Some (att, ft)) by (rewrite I2, N2; exact Er).
@@ -427,12 +466,14 @@ Proof.
            assert (Hall : forall x, In x F -> x <= ft) by (apply all_le; assumption).
            assert (HTt : T <= t) by exact N6.
            split; [exact Gf|]. rewrite Lf. split.
-           { rewrite I5. cbn [log_ok]. rewrite <- I5, HF. split; [|rewrite N4; exact Lg]. apply head_ok_intro.
+           { rewrite I5. apply log_ok_contact; [|rewrite N4; exact Lg]. rewrite <- I5, HF. apply head_ok_intro.
              - intros x Hx. apply nth_error_In in Hx. specialize (Hall x Hx). lia.
              - intros x Hx. rewrite EF in Hx, Hd, Hl. eapply (beyond_cycle C O T t _ x Hd Hl HTt Hs); [|exact Hx]; lia. }
+           split; [|apply (Cl_vac _ s); [|exact Cs|exact Hrec]; rewrite Lf, I5, N4; apply clean_tail].
            unfold L, Lv. rewrite Rf, Df, I3, N3, Ed, Lf, HF, Tf.
            assert (HlF : le_hd F t) by (apply (le_hd_mono F T); assumption).
            split; [apply desc_cons; assumption|]. split; [cbn; lia|].
+           split; [|cbn [length]; lia].
            exists (t :: C), O. split; [rewrite EF; reflexivity|].
            split.
            { unfold sepO in *. destruct O as [|o O']; [exact I|]. destruct C as [|c0 C']; [cbn in *; lia|].
@@ -441,38 +482,42 @@ Proof.
            intros _. destruct C as [|c0 C']; [exact I|]. cbn [gap2]. rewrite EF in Hft. cbn in Hft. lia.
       * (* inside the window: no contact *)
         cbn [hbind hret snd]. unfold hbind. cbn [snd hret].
-        change s1 with (snd (Ok t, s1)). rewrite <- En. apply (FR_inv now s FR_now). split; [exact Gs|]. split; [exact Lg|].
-        unfold L, Lv. fold F T. rewrite Er, Ed. split; [exact Hd|]. split; [exact Hl|]. exists C, O. auto 10.
+        change s1 with (snd (Ok t, s1)). rewrite <- En. apply (FR_inv now s FR_now). split; [exact Gs|]. split; [exact Lg|]. split; [|exact Cs].
+        unfold L, Lv. fold F T. rewrite Er, Ed. split; [exact Hd|]. split; [exact Hl|]. split; [exists C, O; auto 10|exact Hlong].
     + (* the budget is used up: evict, then one last contact *)
       assert (Hatt1 : 1 <= att) by lia.
-      destruct (remove_sv s (att, ft) Gs Er Hm) as (td & s1 & E1 & T1 & G1 & R1 & D1 & M1 & C1 & L1 & T1').
+      assert (Hev : 0 < ra -> (2 <= length (cur_run (h_log s)))%nat) by (intros _; fold F; lia).
+      destruct (remove_sv s (att, ft) Gs Er Hm Hev) as (td & s1 & E1 & T1 & G1 & R1 & D1 & M1 & C1 & L1 & T1' & K1).
       unfold hbind at 1. unfold hbind at 1. rewrite E1. cbn [hret].
       destruct (icall_sp m a s1 G1) as (o & s2 & Ei & Ho & G2 & I1 & I2 & I3 & I4 & I5). rewrite Ei.
       assert (HlF : le_hd F td) by (apply (le_hd_mono F T); assumption).
       destruct o as [v|e].
       * cbn [snd]. split; [exact G2|]. rewrite I5. cbn [isok].
-        split; [cbn [log_ok]; rewrite cur_run_sv; split; [exact I|apply L1, Lg]|].
-        unfold L, Lv. rewrite I5, cur_run_sv, I2, I3, I1, R1, D1, M1, I4, T1'. repeat split; try exact I; lia.
+        split; [apply log_ok_contact; [rewrite cur_run_sv; exact I|apply L1, Lg]|].
+        split; [unfold L, Lv; rewrite I5, cur_run_sv, I2, I3, I1, R1, D1, M1, I4, T1'; repeat split; try exact I; lia|].
+        apply (Cl_vac _ s); [|exact Cs|exact Hrec]. rewrite I5. intros X. apply clean_tail in X. exact (K1 X).
       * cbn [snd]. cbn [okout] in Ho. rewrite dispatch_os by exact Ho. rewrite snd_then'.
         assert (R2 : sv_get (h_failed s2) sv = None) by (rewrite I2; exact R1).
         destruct (mark_none_pos s2 G2 R2 ltac:(lia)) as (t' & Ht' & Gf & Rf & Df & Mf & Lf & Tf). cbn zeta in *.
         set (sf := snd (mark_failed c sv s2)) in *.
         assert (HF : cur_run (h_log s2) = td :: F) by (rewrite I5, cur_run_sv, C1; cbn [isok]; rewrite T1'; reflexivity).
         split; [exact Gf|]. rewrite Lf. split.
-        { rewrite I5. cbn [log_ok]. rewrite <- I5, HF. split; [|apply L1, Lg]. apply head_ok_intro.
+        { rewrite I5. apply log_ok_contact; [|apply L1, Lg]. rewrite <- I5, HF. apply head_ok_intro.
           - intros x Hx. rewrite EF in Hx, Hd, Hl. destruct C as [|c0 [|c1 C']].
             + cbn [app] in *. unfold sepO in Hs. destruct O as [|o O']; [discriminate|]. cbn [last] in Hs.
               assert (x <= o) by (apply (all_le (o :: O') o); [exact Hd|cbn; lia|apply (nth_error_In _ 1), Hx]). lia.
             + cbn [app nth_error] in Hx. destruct O as [|o O']; [discriminate|]. inversion Hx; subst x. cbn [sepO last] in Hs. cbn in Hl. lia.
             + cbn [app nth_error] in Hx. inversion Hx; subst x. specialize (Hgap Hatt1). cbn [gap2] in Hgap. cbn in Hl. lia.
           - intros x Hx. rewrite EF in Hx, Hd, Hl. eapply (beyond_cycle C O T td _ x Hd Hl T1 Hs); [|exact Hx]; lia. }
+        split; [|apply (Cl_vac _ s); [|exact Cs|exact Hrec]; rewrite Lf, I5; intros X; apply clean_tail in X; exact (K1 X)].
         unfold L, Lv. rewrite Rf, Df, I3, D1, Lf, HF, Tf, Mf, I1, M1.
-        split; [apply desc_cons; assumption|]. split; [cbn; lia|]. rewrite I4, T1' in Ht'. repeat split; try lia. cbn. lia.
+        split; [apply desc_cons; assumption|]. split; [cbn; lia|]. rewrite I4, T1' in Ht'. repeat split; try lia; cbn [length le_hd]; lia.
   - (* no record, not evicted *)
     cbn [snd]. destruct (icall_sp m a s Gs) as (o & s1 & Ei & Ho & G1 & I1 & I2 & I3 & I4 & I5). rewrite Ei.
     destruct o as [v|e].
-    + cbn [snd]. split; [exact G1|]. rewrite I5. cbn [isok]. split; [cbn [log_ok]; rewrite cur_run_sv; split; [exact I|exact Lg]|].
-      unfold L, Lv. rewrite I5, cur_run_sv, I2, I3, Er, Ed. repeat split; exact I.
+    + cbn [snd]. split; [exact G1|]. rewrite I5. cbn [isok]. split; [apply log_ok_contact; [rewrite cur_run_sv; exact I|exact Lg]|].
+      split; [unfold L, Lv; rewrite I5, cur_run_sv, I2, I3, Er, Ed; repeat split; exact I|].
+      unfold Cl. rewrite I5, I1, I2, I3. intros X. apply clean_tail in X. apply Cs, X.
     + cbn [snd]. cbn [okout] in Ho. rewrite dispatch_os by exact Ho. rewrite snd_then.
       assert (R1 : sv_get (h_failed s1) sv = None) by (rewrite I2; exact Er).
       assert (HF : cur_run (h_log s1) = T :: F) by (rewrite I5, cur_run_sv; reflexivity).
@@ -480,20 +525,24 @@ Proof.
       { intros x Hx. unfold sepO in Ls. destruct F as [|o F'] eqn:EF'; [destruct Hx|]. cbn [last] in Ls.
         assert (x <= o) by (apply (all_le (o :: F') o); [exact Hd|cbn; lia|exact Hx]). lia. }
       assert (Hlog1 : log_ok (h_log s1)).
-      { rewrite I5. cbn [log_ok]. rewrite <- I5, HF. split; [|exact Lg]. apply head_ok_intro; intros x Hx; apply nth_error_In in Hx; specialize (Hfar x Hx); lia. }
+      { rewrite I5. apply log_ok_contact; [|exact Lg]. rewrite <- I5, HF. apply head_ok_intro; intros x Hx; apply nth_error_In in Hx; specialize (Hfar x Hx); lia. }
+      assert (Hnc : forall l, ~ clean (l ++ h_log s1)).
+      { intros l X. induction l as [|ev l IH]; [rewrite I5 in X; exact (not_clean _ _ _ _ X)|apply IH, (clean_tail ev), X]. }
       destruct (Z_gt_le_dec ra 0) as [Hp|Hz].
       * destruct (mark_none_pos s1 G1 R1 Hp) as (t' & Ht' & Gf & Rf & Df & Mf & Lf & Tf). cbn zeta in *.
         set (sf := snd (mark_failed c sv s1)) in *. rewrite I4 in Ht'. fold T in Ht'.
         split; [exact Gf|]. rewrite Lf. split; [exact Hlog1|].
+        split; [|intros X; exfalso; rewrite Lf in X; apply (Hnc [] X)].
         unfold L, Lv. rewrite Rf, Df, I3, Ed, Lf, HF, Tf.
-        split; [apply desc_cons; assumption|]. split; [cbn; lia|].
+        split; [apply desc_cons; assumption|]. split; [cbn; lia|]. split; [|cbn [length]; lia].
         exists [T], F. split; [reflexivity|]. split.
         { unfold sepO. destruct F as [|o F'] eqn:EF'; [exact I|]. cbn [last]. apply Hfar. left. reflexivity. }
         split; [lia|]. split; [lia|]. split; [cbn; lia|]. split; [cbn; lia|]. split; [lia|]. intros X. lia.
       * assert (M1 : sv_mem (h_nodes s1) sv = true) by (rewrite I1; exact Hm).
-        destruct (mark_none_zero s1 G1 R1 Hz M1) as (td & Ht' & Gf & Rf & Df & Mf & Cf & Lf & Tf). cbn zeta in *.
+        destruct (mark_none_zero s1 G1 R1 Hz M1) as (td & Ht' & Gf & Rf & Df & Mf & Cf & Lf & Tf & Kf). cbn zeta in *.
         set (sf := snd (mark_failed c sv s1)) in *. rewrite I4 in Ht'. fold T in Ht'.
         split; [exact Gf|]. split; [apply Lf, Hlog1|].
+        split; [|intros X; exfalso; exact (Hnc [] (Kf X))].
         unfold L, Lv. rewrite Rf, Df, Mf, Cf, HF, Tf.
         split; [apply desc_cons; assumption|]. split; [cbn; lia|]. repeat split; try lia. cbn. lia.
 Qed.
@@ -523,7 +572,7 @@ Lemma revive_sv t s : Inv s -> t <= h_last_time s -> (forall td, sv_get (h_dead 
                   (fun s => (Ok tt, upd s (h_nodes s) (h_clients s) (h_failed s) (sv_del (h_dead s) sv) (h_last_check s)))) s) in
   Inv s3 /\ sv_get (h_dead s3) sv = None /\ h_last_time s3 = h_last_time s.
 Proof.
-  intros (Gs & Lg & Ls) Ht Hdead. cbn zeta. unfold hbind, add_server, hlog. cbn [snd upd h_nodes h_clients h_failed h_dead h_last_check h_time h_last_time h_out h_log].
+  intros (Gs & Lg & Ls & Cs) Ht Hdead. cbn zeta. unfold hbind, add_server, hlog. cbn [snd upd h_nodes h_clients h_failed h_dead h_last_check h_time h_last_time h_out h_log].
   destruct Gs as [G1 G2 G3 G4 G5].
   assert (Dn : sv_get (sv_del (h_dead s) sv) sv = None) by (apply sv_get_del_same, G3).
   split; [|split; [exact Dn|reflexivity]].
@@ -531,11 +580,15 @@ Proof.
   { constructor; cbn; try assumption; [|apply sv_del_nodup, G3].
     destruct (sv_mem (h_nodes s) sv) eqn:E; [exact G1|apply nodup_snoc; [exact G1|intros X; apply sv_mem_In in X; congruence]]. }
   split; [apply (log_ok_other (HRevive sv t)); [exact I|exact Lg]|].
+  split.
+  2:{ unfold Cl in *. cbn [upd h_nodes h_clients h_failed h_dead h_last_check h_time h_last_time h_out h_log clean]. intros X.
+      destruct (Cs X) as (C1 & C2 & C3). split; [exact C1|]. split; [exact Dn|]. intros _.
+      destruct (sv_mem (h_nodes s) sv) eqn:E; [exact E|]. unfold sv_mem. rewrite existsb_app. cbn [existsb]. rewrite list_eqb_refl. apply orb_true_iff. right. reflexivity. }
   unfold L, Lv in *. cbn [upd h_nodes h_clients h_failed h_dead h_last_check h_time h_last_time h_out h_log].
   rewrite Dn. rewrite (cur_run_other (HRevive sv t) (h_log s) I).
   destruct Ls as (Hd & Hl & Ls). split; [exact Hd|]. split; [exact Hl|].
   destruct (sv_get (h_failed s) sv) as [[att ft]|]; destruct (sv_get (h_dead s) sv) as [td|] eqn:Ed; try exact Ls.
-  - destruct Ls as (A1 & A2 & A3 & A4 & A5 & A6). specialize (Hdead td eq_refl).
+  - destruct Ls as (A1 & A2 & A3 & A4 & A5 & A6 & A7). specialize (Hdead td eq_refl). split; [|lia].
     exists [], (cur_run (h_log s)). split; [reflexivity|]. split.
     { unfold sepO. destruct (cur_run (h_log s)) as [|o F']; [exact I|]. cbn [last]. cbn in A3. lia. }
     split; [lia|]. split; [exact A2|]. split; [cbn; lia|]. split; [apply (le_hd_mono _ td); assumption|]. split; [exact A5|]. intros X. lia.
@@ -567,8 +620,8 @@ Proof.
     + assert (Fone : FR one).
       { unfold one. apply FR_bind; [apply FR_add, Ex|]. intros _. apply FR_bind; [apply (FR_hlog (HRevive x t) I)|]. intros _. apply (FR_del_dead tt x Ex). }
       pose proof (Fone s) as F1. rewrite E1 in F1. cbn [snd] in F1.
-      destruct Hi as (Gs & Lg & Ls). destruct (F1 Gs) as [G1 (V1 & V2 & V3 & V4 & V5 & V6)].
-      apply IH; [apply (Inv_frame s); [split; [exact Gs|split; assumption]|exact F1]|lia|].
+      pose proof Hi as (Gs & Lg & Ls & Cs). destruct (F1 Gs) as [G1 (V1 & V2 & V3 & V4 & V5 & V6 & V7)].
+      apply IH; [apply (Inv_frame s); [exact Hi|exact F1]|lia|].
       intros Hin td Htd. rewrite V2 in Htd. apply Hdead; [right; exact Hin|exact Htd].
 Qed.
 Lemma retry_dead_eq : retry_dead c = (t <== now ;; fun s => if t - h_last_check s >? dt then revive_go t (map fst (filter (fun d => t - snd d >? dt) (h_dead s))) s else (Ok tt, s)).
@@ -836,14 +889,22 @@ Proof.
   induction servers as [|x t IH]; intros acc H; [exact H|]. cbn [fold_left]. apply IH.
   destruct (sv_mem acc x) eqn:E; [exact H|apply nodup_snoc; [exact H|intros X; apply sv_mem_In in X; congruence]].
 Qed.
-Lemma init_inv servers t0 times outs : mono t0 times -> Forall okout outs -> Inv (init_hstate servers t0 times outs).
+Lemma init_inv servers t0 times outs : mono t0 times -> Forall okout outs ->
+  (m0 = true -> sv_mem (h_nodes (init_hstate servers t0 times outs)) sv = true) -> Inv (init_hstate servers t0 times outs).
 Proof.
-  intros Hm Ho. split; [constructor; cbn; try assumption; try constructor; apply init_nodup; constructor|].
-  split; [exact I|]. unfold L, Lv. cbn. repeat split; exact I.
+  intros Hm Ho H0. split; [constructor; cbn; try assumption; try constructor; apply init_nodup; constructor|].
+  split; [exact I|]. split; [unfold L, Lv; cbn; repeat split; exact I|]. intros _. split; [reflexivity|]. split; [reflexivity|exact H0].
 Qed.
 
-(* every failing contact of sv, at the moment it was made, respected both windows *)
+(* every failing contact of sv, at the moment it was made, respected both windows; every eviction of sv (with retries
+   configured) came after at least two failing contacts in a row; and while sv has not failed it has no failure record, is
+   not evicted and - if it started in rotation - is still in rotation *)
+Theorem history_inv servers t0 times outs ops : mono t0 times -> Forall okout outs ->
+  (m0 = true -> sv_mem (h_nodes (init_hstate servers t0 times outs)) sv = true) ->
+  Inv (snd (run_hops route c ops (init_hstate servers t0 times outs))).
+Proof. intros Hm Ho H0. apply (run_hops_inv ops _ (init_inv servers t0 times outs Hm Ho H0)). Qed.
 Theorem windows_hold servers t0 times outs ops : mono t0 times -> Forall okout outs ->
+  (m0 = true -> sv_mem (h_nodes (init_hstate servers t0 times outs)) sv = true) ->
   log_ok (h_log (snd (run_hops route c ops (init_hstate servers t0 times outs)))).
-Proof. intros Hm Ho. apply (run_hops_inv ops _ (init_inv servers t0 times outs Hm Ho)). Qed.
+Proof. intros Hm Ho H0. apply (history_inv servers t0 times outs ops Hm Ho H0). Qed.
 End Windows.
